@@ -8,6 +8,7 @@
 -/
 import RbModel.Lemmas.Map
 import RbModel.Lemmas.Feature
+import RbModel.Lemmas.FeatureGsub
 
 namespace RbModel.Props.C14
 open RbModel.Feature RbModel.Map
@@ -16,7 +17,7 @@ open RbModel.Feature RbModel.Map
 
 /-  FULL STATEMENT — FALSE on the current tree (defect D15), kept as the target:
 
-    theorem C14_new_exact (t v : Nat) (s e : Bound) (i : Nat) (hi : i < U32MAX) :
+    theorem C14_new_exact (t v : Nat) (s e : Bound) (i : Nat) (hi : i < Feature.U32MAX) :
         covers (Feature.new t v s e) i ↔ Bound.mem s e i
 
     `Feature::new` maps `a..b` to `end = b-1` and `a..=b` to `end = b`, but `end` is exclusive in
@@ -30,26 +31,26 @@ open RbModel.Feature RbModel.Map
 theorem known_C14_feature_new (t v : Nat) :
     Feature.new t v (.included 0) (.excluded 1) = ⟨t, v, 0, 0⟩ ∧
     Bound.mem (.included 0) (.excluded 1) 0 ∧ ¬ covers (Feature.new t v (.included 0) (.excluded 1)) 0 := by
-  refine ⟨rfl, by decide, by simp [covers, isGlobal, Feature.new, U32MAX]⟩
+  refine ⟨rfl, by decide, by simp [covers, isGlobal, Feature.new, Feature.U32MAX]⟩
 
 /-- the forms that are right: an unbounded end (`..`, `a..`, `(Excluded a, Unbounded)`), for every start bound,
     every tag/value and every cluster below u32::MAX. -/
-theorem C14_new_partial (t v : Nat) (s : Bound) (i : Nat) (hi : i < U32MAX) :
+theorem C14_new_partial (t v : Nat) (s : Bound) (i : Nat) (hi : i < Feature.U32MAX) :
     covers (Feature.new t v s .unbounded) i ↔ Bound.mem s .unbounded i := by
-  unfold covers isGlobal Feature.new Bound.mem U32MAX at *
+  unfold covers isGlobal Feature.new Bound.mem Feature.U32MAX at *
   cases s <;> simp <;> omega
 
-example : ∃ i, i < U32MAX ∧ covers (Feature.new 1 1 (.included 3) .unbounded) i := ⟨5, by decide, by decide⟩
+example : ∃ i, i < Feature.U32MAX ∧ covers (Feature.new 1 1 (.included 3) .unbounded) i := ⟨5, by decide, by decide⟩
 
 /-- what the bounded-end forms do instead: exactly one cluster short (`a..b` acts on `[a, b-1)`,
     `a..=b` on `[a, b)`), for every start bound. -/
-theorem C14_new_bounded_one_short (t v : Nat) (s : Bound) (b i : Nat) (hi : i < U32MAX) :
+theorem C14_new_bounded_one_short (t v : Nat) (s : Bound) (b i : Nat) (hi : i < Feature.U32MAX) :
     (covers (Feature.new t v s (.excluded b)) i ↔ Bound.mem s .unbounded i ∧ i + 1 < b) ∧
     (covers (Feature.new t v s (.included b)) i ↔ Bound.mem s .unbounded i ∧ i < b) := by
-  unfold covers isGlobal Feature.new Bound.mem U32MAX at *
+  unfold covers isGlobal Feature.new Bound.mem Feature.U32MAX at *
   cases s <;> simp <;> omega
 
-example : ∃ i, i < U32MAX ∧ covers (Feature.new 1 1 (.included 3) (.excluded 9)) i := ⟨5, by decide, by decide⟩
+example : ∃ i, i < Feature.U32MAX ∧ covers (Feature.new 1 1 (.included 3) (.excluded 9)) i := ⟨5, by decide, by decide⟩
 
 /-! ## Feature::from_str -/
 
@@ -116,7 +117,7 @@ theorem C14_set_masks_exact (gs : List Glyph) (len value mask cs ce : Nat)
     ∀ i g, gs[i]? = some g →
       ∃ g', (setMasks gs len value mask cs ce)[i]? = some g' ∧ g'.gid = g.gid ∧ g'.cluster = g.cluster ∧
         ∀ k, g'.mask.testBit k =
-          if mask.testBit k = true ∧ i < len ∧ ((cs = 0 ∧ ce = U32MAX) ∨ (cs ≤ g.cluster ∧ g.cluster < ce))
+          if mask.testBit k = true ∧ i < len ∧ ((cs = 0 ∧ ce = Feature.U32MAX) ∨ (cs ≤ g.cluster ∧ g.cluster < ce))
           then value.testBit k else g.mask.testBit k := by
   unfold setMasks
   by_cases h0 : mask = 0
@@ -124,7 +125,7 @@ theorem C14_set_masks_exact (gs : List Glyph) (len value mask cs ce : Nat)
     simp only [if_true]
     refine ⟨by trivial, fun i g hi => ⟨g, hi, rfl, rfl, fun k => by simp⟩⟩
   · simp only [h0, if_false]
-    by_cases hgl : cs = 0 ∧ ce = U32MAX
+    by_cases hgl : cs = 0 ∧ ce = Feature.U32MAX
     · simp only [hgl, and_self, if_true]
       refine ⟨length_mapPrefix _ _ _, fun i g hi => ?_⟩
       rw [getElem?_mapPrefix, hi]
@@ -144,7 +145,7 @@ theorem C14_set_masks_exact (gs : List Glyph) (len value mask cs ce : Nat)
           rw [testBit_setMask1 value mask g hm hgm]
           by_cases hk : mask.testBit k = true <;> simp [hk, hl, hr]
         · refine ⟨g, by simp [hl, hr], rfl, rfl, fun k => ?_⟩
-          have : ¬ ((cs = 0 ∧ ce = U32MAX) ∨ (cs ≤ g.cluster ∧ g.cluster < ce)) := by
+          have : ¬ ((cs = 0 ∧ ce = Feature.U32MAX) ∨ (cs ≤ g.cluster ∧ g.cluster < ce)) := by
             intro h; rcases h with h | h
             · exact hgl h
             · exact hr h
@@ -161,7 +162,7 @@ example : ∃ (gs : List Glyph) (mask : Nat), mask < W32 ∧ (∀ g ∈ gs, g.ma
     contiguous bits (1 ≤ b) starting at its shift, above the first feature bit and below the global bit, and was made
     for an info of the input list.  Holds for every font, every info list (deduplicated or not) and both sort modes,
     also when the 28-bit budget runs out: nothing is ever aliased. -/
-theorem C14_bits_disjoint (c : Cfg) (font : Font) (isSimple : Bool) (infos : List Info) (hb : 0 < c.maxBits) :
+theorem C14_bits_disjoint (c : Cfg) (font : Font) (isSimple : Bool) (infos : List Map.Info) (hb : 0 < c.maxBits) :
     let r := collectFeatureMaps c font isSimple infos
     r.feats.Pairwise (fun f g => IsGlobalBit c f ∨ IsGlobalBit c g ∨ f.mask &&& g.mask = 0) ∧
     ∀ f ∈ r.feats, IsGlobalBit c f ∨
@@ -187,7 +188,7 @@ example : (0 : Nat) < genCfg.maxBits := by decide
 /-- Whenever user features are present (`is_simple = false`: the infos are sorted before the merge), the deduplicated
     infos and the map entries have strictly increasing — hence pairwise distinct — tags: one entry per tag, which is
     what `get_mask`'s binary search relies on (and what makes "the mask of a feature" well defined). -/
-theorem C14_feature_tags_distinct (c : Cfg) (font : Font) (infos : List Info) :
+theorem C14_feature_tags_distinct (c : Cfg) (font : Font) (infos : List Map.Info) :
     (dedupInfos c false infos).Pairwise (fun a b => a.tag < b.tag) ∧
     (collectFeatureMaps c font false infos).feats.Pairwise (fun f g => f.tag < g.tag) := by
   refine ⟨dedupInfos_sorted c infos, ?_⟩
@@ -217,7 +218,7 @@ example : OwnBits genCfg ⟨1, none, none, 0, 0, 4, 48, 16, true, true, false, f
   refine ⟨by decide, by decide, by decide, by decide, by decide⟩
 
 /-- `max_value < 2^(bit_storage max_value)`: with `b` as allocated, every `v ≤ max_value` below the 8-bit cap is exact. -/
-theorem C14_value_fits (c : Cfg) (info : Info) (v : Nat) (hv : v ≤ info.maxValue) (hcap : v < 2 ^ c.maxBits) :
+theorem C14_value_fits (c : Cfg) (info : Map.Info) (v : Nat) (hv : v ≤ info.maxValue) (hcap : v < 2 ^ c.maxBits) :
     v < 2 ^ (min c.maxBits (bitStorage info.maxValue)) := by
   by_cases h : c.maxBits ≤ bitStorage info.maxValue
   · rw [Nat.min_eq_left h]; exact hcap
@@ -228,12 +229,12 @@ theorem C14_value_fits (c : Cfg) (info : Info) (v : Nat) (hv : v ≤ info.maxVal
     · simp only [h0, if_false]
       exact Nat.lt_of_le_of_lt hv Nat.lt_log2_self
 
-example : (3 : Nat) ≤ (⟨1, 0, 5, 0, 0, 0, 0⟩ : Info).maxValue ∧ 3 < 2 ^ genCfg.maxBits := by decide
+example : (3 : Nat) ≤ (⟨1, 0, 5, 0, 0, 0, 0⟩ : Map.Info).maxValue ∧ 3 < 2 ^ genCfg.maxBits := by decide
 
 /-- budget exhaustion (and `max_value = 0`) drops the feature entirely: when the loop reaches an info for which
     `max_value == 0 || next_bit + bits_needed >= GLOBAL_BIT_SHIFT`, the compiled result is the one obtained without
     that info — no entry, no bit, no change of the global mask; later (smaller) features are still served. -/
-theorem C14_budget_drop (c : Cfg) (font : Font) (pre post : List Info) (info : Info)
+theorem C14_budget_drop (c : Cfg) (font : Font) (pre post : List Map.Info) (info : Map.Info)
     (h : skipped c (allocAll c font pre) info = true) :
     allocAll c font (pre ++ info :: post) = allocAll c font (pre ++ post) :=
   foldl_drop pre post info (allocStep_skipped h)
@@ -244,7 +245,7 @@ example : skipped genCfg (allocAll genCfg ⟨fun _ => false, fun _ => none, fun 
 /-- C04's invariant: every allocated mask (and the global mask `reset_masks` writes into every glyph) avoids the
     glyph-flag bits, and every shift is at or above the first feature bit — so `info.mask |= feature_mask` and
     `set_masks` with a feature mask can never touch a flag bit. -/
-theorem C04_feature_bits_above_flags (c : Cfg) (font : Font) (isSimple : Bool) (infos : List Info)
+theorem C04_feature_bits_above_flags (c : Cfg) (font : Font) (isSimple : Bool) (infos : List Map.Info)
     (hb : 0 < c.maxBits) (hflags : c.flagsDefined < 2 ^ c.firstBit) (hfirst : c.firstBit ≤ c.globalShift) :
     let r := collectFeatureMaps c font isSimple infos
     (∀ f ∈ r.feats, f.mask &&& c.flagsDefined = 0 ∧ c.firstBit ≤ f.shift) ∧
@@ -276,7 +277,7 @@ theorem C04_feature_bits_above_flags (c : Cfg) (font : Font) (isSimple : Bool) (
     exact ⟨fun f h => hf f (hp.mem_iff.1 h), hg⟩
 
 /-- the same for the constants of the compiled crate: `mask & 7 = 0`, `shift ≥ 4`, for every font and feature list. -/
-theorem C04_feature_bits_above_flags_gen (font : Font) (isSimple : Bool) (infos : List Info) :
+theorem C04_feature_bits_above_flags_gen (font : Font) (isSimple : Bool) (infos : List Map.Info) :
     let r := collectFeatureMaps genCfg font isSimple infos
     (∀ f ∈ r.feats, f.mask &&& 7 = 0 ∧ 4 ≤ f.shift) ∧ r.globalMask &&& 7 = 0 :=
   C04_feature_bits_above_flags genCfg font isSimple infos (by decide) (by decide) (by decide)
@@ -316,10 +317,10 @@ example : ∃ alts : List Nat, alts ≠ [] := ⟨[1], by simp⟩
     feature's tag) costs nothing: the allocation is the one obtained without it (no bit is spent, other masks do not
     move), no map entry carries a tag all of whose infos are absent, and `setup_masks` for such a tag
     (`get_mask` = (0,0) ⇒ `set_masks` with mask 0) leaves the buffer as it is. -/
-theorem C14_absent_feature_noop (c : Cfg) (font : Font) (pre post : List Info) (info : Info)
+theorem C14_absent_feature_noop (c : Cfg) (font : Font) (pre post : List Map.Info) (info : Map.Info)
     (h : Absent c font info) :
     allocAll c font (pre ++ info :: post) = allocAll c font (pre ++ post) ∧
-    (∀ infos : List Info, (∀ i ∈ infos, i.tag = info.tag → Absent c font i) →
+    (∀ infos : List Map.Info, (∀ i ∈ infos, i.tag = info.tag → Absent c font i) →
       ∀ f ∈ (allocAll c font infos).feats, f.tag ≠ info.tag) ∧
     (∀ (m : Map) (uf : RbModel.Feature.Feature) (gs : List Glyph),
       (∀ f ∈ m.features, f.tag ≠ uf.tag) → setupMasks m [uf] gs = gs) := by
@@ -338,7 +339,7 @@ theorem C14_absent_feature_noop (c : Cfg) (font : Font) (pre post : List Info) (
         intro x hx; simp; exact hno x hx
       simp [Map.getMask, this, setMasks]
 where
-  allocStep_absent_eq {c : Cfg} {font : Font} {pre : List Info} {info : Info} (h : Absent c font info := by assumption) :
+  allocStep_absent_eq {c : Cfg} {font : Font} {pre : List Map.Info} {info : Map.Info} (h : Absent c font info := by assumption) :
       allocStep c font (allocAll c font pre) info = allocAll c font pre := allocStep_absent h
 
 example : Absent genCfg ⟨fun _ => false, fun _ => none, fun _ => 0, fun _ _ => none, fun _ _ => none,
@@ -351,8 +352,8 @@ example : Absent genCfg ⟨fun _ => false, fun _ => none, fun _ => 0, fun _ _ =>
     (b) writing value 0 over a range clears all bits of the feature's mask on those glyphs, and a lookup whose mask
     does not meet the glyph mask is not applied there. -/
 theorem C14_zero_disables (c : Cfg) (font : Font) :
-    (∀ (st : Alloc) (info : Info), info.maxValue = 0 → allocStep c font st info = st) ∧
-    (∀ (j i : Info), i.flags &&& c.fGlobal ≠ 0 → i.maxValue = 0 → (mergeInfo c j i).maxValue = 0) ∧
+    (∀ (st : Alloc) (info : Map.Info), info.maxValue = 0 → allocStep c font st info = st) ∧
+    (∀ (j i : Map.Info), i.flags &&& c.fGlobal ≠ 0 → i.maxValue = 0 → (mergeInfo c j i).maxValue = 0) ∧
     (∀ (mask : Nat) (g : Glyph), mask < W32 → g.mask < W32 → (setMask1 0 mask g).mask &&& mask = 0) ∧
     (∀ (lk : Lookup) (lm : LMap) (g : Glyph) (rs : Nat), g.mask &&& lm.mask = 0 → applyGlyph c lk lm g rs = (g, rs)) := by
   refine ⟨?_, ?_, ?_, ?_⟩
@@ -491,7 +492,7 @@ theorem known_C14_value_wraps (c : Cfg) (f : FMap) (b : Nat) (g : Glyph) (hc : c
     same tag with value 1, the merged info is "global with max_value 1", so its map entry is the shared GLOBAL bit;
     `setup_masks` then writes the ranged entry's value into that bit, and an even value clears it — after which no
     lookup whose mask is the global bit (every default-on feature) applies to that glyph. -/
-theorem known_C14_global_bit_alias (c : Cfg) (j i : Info) (v : Nat) (g : Glyph) (lk : Lookup) (lm : LMap) (rs : Nat)
+theorem known_C14_global_bit_alias (c : Cfg) (j i : Map.Info) (v : Nat) (g : Glyph) (lk : Lookup) (lm : LMap) (rs : Nat)
     (hs : c.globalShift < 32) (hg : g.mask < W32)
     (hi : i.flags &&& c.fGlobal ≠ 0) (h1 : i.maxValue = 1) (hv : v % 2 = 0) (hlm : lm.mask = c.globalBit) :
     usesGlobalBit c (mergeInfo c j i) = true ∧
@@ -528,7 +529,7 @@ theorem known_C14_global_bit_alias (c : Cfg) (j i : Info) (v : Nat) (g : Glyph) 
   · exact (C14_zero_disables c ⟨fun _ => false, fun _ => none, fun _ => 0, fun _ _ => none, fun _ _ => none,
       fun _ _ => none⟩).2.2.2 lk lm _ rs (by rw [hlm]; exact hclr)
 
-example : genCfg.globalShift < 32 ∧ (⟨1, 1, 1, 1, 1, 0, 0⟩ : Info).flags &&& genCfg.fGlobal ≠ 0 := by decide
+example : genCfg.globalShift < 32 ∧ (⟨1, 1, 1, 1, 1, 0, 0⟩ : Map.Info).flags &&& genCfg.fGlobal ≠ 0 := by decide
 
 /-- finding `shared-alternate-lookup` (alternate_set.rs: "This breaks badly if two features enabled this lookup together"):
     when an ALTERNATE lookup is referenced by two features that own the bit fields `[sA, sA+bA)` and `[sB, sB+bB)` (A below
@@ -585,5 +586,101 @@ theorem known_C14_shared_alternate_index (sA bA sB bB v : Nat) (hA : 1 ≤ bA) (
   omega
 
 example : (1 : Nat) ≤ 1 ∧ 4 + 1 ≤ 5 ∧ 5 + 1 ≤ 32 ∧ (1 : Nat) < 2 ^ 1 ∧ (1 : Nat) ≠ 0 := by decide
+
+/-! ## the lookup drivers honour the feature masks: reverse chaining lookups (`apply_backward`) -/
+
+/-- `apply_string` on a lookup made of ReverseChainSingleSubst subtables (the only lookups `apply_backward` drives), for every
+    font, lookup flag, buffer content and position budget: the buffer keeps its length, and the glyph id of a position
+    changes ONLY IF the glyph that stood there carries a bit of the lookup mask — i.e. only where the feature that owns the
+    lookup is on.  `K` is any lookup mask that avoids the glyph-flag bits (`C04_feature_bits_above_flags`: every mask the
+    feature map hands out does); the matching code ORs such flag bits into neighbouring masks as it goes, which is why the
+    statement is about the masks the glyphs had when the lookup started. -/
+theorem C14_reverse_lookup_respects_mask (K : Nat) (hflag : RbModel.Flag.DEFINED &&& K = 0)
+    (l : RbModel.Gsub.Lookup) (hrev : l.reverse = true) (c c' : RbModel.Gsub.Ctx) (fuel : Nat)
+    (hmask : c.lookupMask = K) (h : RbModel.Gsub.applyString c l fuel = .ok c') :
+    c'.buf.info.length = c.buf.info.length ∧ c'.buf.len = c.buf.len ∧
+    ∀ (j : Nat) (x x' : RbModel.Info), c.buf.info[j]? = some x → c'.buf.info[j]? = some x' →
+      x'.gid ≠ x.gid → x.mask &&& K ≠ 0 := by
+  have hall : l.subtables.all RbModel.Gsub.Subtable.isReverse = true := by
+    unfold RbModel.Gsub.Lookup.reverse at hrev
+    simp only [Bool.and_eq_true] at hrev
+    exact hrev.2
+  unfold RbModel.Gsub.applyString at h
+  simp only [hrev] at h
+  split at h
+  · cases h
+    refine ⟨rfl, rfl, ?_⟩
+    intro j x x' hx hx' hne
+    rw [hx] at hx'; cases hx'; exact absurd rfl hne
+  · simp only [Bool.not_true, Bool.false_eq_true, if_false] at h
+    split at h
+    · cases h
+    · have key := RbModel.Gsub.applyBackward_respects_mask K hflag l hall _ _ c' (by exact hmask) h
+      exact key
+
+
+/-- non-vacuity, and the statement at work: a reverse chaining lookup `1 → 2` (no context) with lookup mask 16 on the
+    glyphs 1 1 1 of which only the middle one carries bit 16 (the feature ranged over cluster 1): exactly that glyph is
+    substituted.  (With the mask test of `apply_backward` gone, all three would be.) -/
+example :
+    let l : RbModel.Gsub.Lookup := { props := 0, subtables := [.reverse [1] [] [] [2]] }
+    let c : RbModel.Gsub.Ctx := { buf := { info := [⟨1, 0, 0, 0, 3⟩, ⟨1, 16, 1, 0, 3⟩, ⟨1, 0, 2, 0, 3⟩], out := [{}, {}, {}], len := 3 },
+                                   font := { lookups := [l] }, lookupMask := 16 }
+    l.reverse = true ∧ RbModel.Flag.DEFINED &&& c.lookupMask = 0 ∧
+      (match RbModel.Gsub.applyString c l 100 with
+       | .ok c' => c'.buf.info.map (·.gid)
+       | .error _ => []) = [1, 2, 1] := by decide
+
+/-- The composition with `set_masks`: a feature that is off by default (no glyph carries a bit of its mask `K` after
+    `reset_masks(global_mask)`) is given a value on the cluster range `[cs, ce)` (not the global pair); a reverse chaining
+    lookup that belongs to that feature alone (lookup mask `K`) then leaves every glyph whose cluster lies OUTSIDE the
+    range with its glyph id — whatever the value, the font, the lookup's coverages and contexts. -/
+theorem C14_reverse_lookup_acts_inside_range (gs : List Glyph) (value K cs ce : Nat) (hK : K < W32)
+    (hg : ∀ g ∈ gs, g.mask < W32) (hoff : ∀ g ∈ gs, g.mask &&& K = 0) (hflag : RbModel.Flag.DEFINED &&& K = 0)
+    (hr : ¬ (cs = 0 ∧ ce = Feature.U32MAX))
+    (l : RbModel.Gsub.Lookup) (hrev : l.reverse = true) (c c' : RbModel.Gsub.Ctx) (fuel : Nat) (hmask : c.lookupMask = K)
+    (hbuf : c.buf.info.map (fun x => (x.mask, x.cluster)) =
+            (setMasks gs gs.length value K cs ce).map (fun g => (g.mask, g.cluster)))
+    (h : RbModel.Gsub.applyString c l fuel = .ok c') :
+    c'.buf.info.length = c.buf.info.length ∧
+    ∀ (j : Nat) (x x' : RbModel.Info), c.buf.info[j]? = some x → c'.buf.info[j]? = some x' →
+      ¬ (cs ≤ x.cluster ∧ x.cluster < ce) → x'.gid = x.gid := by
+  obtain ⟨hlen, _, hgid⟩ := C14_reverse_lookup_respects_mask K hflag l hrev c c' fuel hmask h
+  refine ⟨hlen, ?_⟩
+  intro j x x' hx hx' hout
+  apply Classical.byContradiction
+  intro hne
+  apply hgid j x x' hx hx' hne
+  -- the glyph at j after set_masks
+  obtain ⟨hl, hex⟩ := C14_set_masks_exact gs gs.length value K cs ce hK hg
+  have hj : ((c.buf.info.map (fun x => (x.mask, x.cluster)))[j]?) = some (x.mask, x.cluster) := by
+    rw [List.getElem?_map, hx]; rfl
+  rw [hbuf, List.getElem?_map] at hj
+  cases hs : (setMasks gs gs.length value K cs ce)[j]? with
+  | none => rw [hs] at hj; cases hj
+  | some g' =>
+    rw [hs] at hj
+    simp only [Option.map_some, Option.some.injEq, Prod.mk.injEq] at hj
+    obtain ⟨hm, hc⟩ := hj
+    have hjl : j < gs.length := by
+      rw [← hl]; exact (List.getElem?_eq_some_iff.1 hs).1
+    obtain ⟨g'', hg'', _, hcl, hbits⟩ := hex j gs[j] (List.getElem?_eq_getElem hjl)
+    rw [hs] at hg''; cases hg''
+    have hg0 := hoff gs[j] (List.getElem_mem hjl)
+    apply Nat.eq_of_testBit_eq
+    intro k
+    rw [← hm, Nat.testBit_and, hbits k, Nat.zero_testBit]
+    have hnot : ¬ (K.testBit k = true ∧ j < gs.length ∧ ((cs = 0 ∧ ce = Feature.U32MAX) ∨ (cs ≤ gs[j].cluster ∧ gs[j].cluster < ce))) := by
+      intro hh
+      rcases hh.2.2 with h1 | h1
+      · exact hr h1
+      · apply hout; rw [← hc, hcl]; exact h1
+    rw [if_neg hnot]
+    have := congrArg (fun n => n.testBit k) hg0
+    simpa [Nat.testBit_and] using this
+
+example : ∃ (gs : List Glyph) (K : Nat), K < W32 ∧ (∀ g ∈ gs, g.mask < W32) ∧ (∀ g ∈ gs, g.mask &&& K = 0) ∧
+    RbModel.Flag.DEFINED &&& K = 0 ∧ gs ≠ [] :=
+  ⟨[⟨1, 2147483648, 0⟩], 16, by decide, by simp [W32], by simp, by decide, by simp⟩
 
 end RbModel.Props.C14
